@@ -4,7 +4,10 @@ import (
 	"bytes"
 	"fmt"
 	"io"
+	"runtime"
+	"strings"
 	"sync"
+	"sync/atomic"
 	"testing"
 	"time"
 
@@ -511,4 +514,129 @@ func send(in chan msgs.Message, done chan struct{}, m msgs.Message) {
 	case <-done:
 	case <-time.After(15 * time.Second):
 	}
+}
+
+// ---- unforced concurrency: many senders entering Send at the same instant --------------------
+
+type c11Stress struct {
+	M       int `json:"m"`
+	Senders int `json:"senders_per_side"`
+	Rounds  int `json:"rounds"`
+}
+
+func TestVerifC11ConcurrentStress(t *testing.T) {
+	u := vk.Unit{Property: "C11", Name: "c11.concurrent-stress", Quick: 6, Thorough: 200,
+		Rule: "two TransferManagers back to back; 2..4 sender goroutines per side, each sending 150..600 small bundles (segment size 16/64/500), all senders released together by a spin barrier before every Send so that Send calls of one session overlap within nanoseconds; oracle: every Send returns nil, each side hands up exactly the multiset of bundles sent to it, byte-identical, no session error; every case non-trivial; distinct by parameters. The schedule is the runtime's; a failure reproduces only statistically"}
+	vk.Check(t, u, func(t *rapid.T) c11Stress {
+		return c11Stress{M: rapid.SampledFrom([]int{16, 64, 500}).Draw(t, "m"), Senders: rapid.IntRange(2, 4).Draw(t, "senders"), Rounds: rapid.IntRange(150, 600).Draw(t, "rounds")}
+	}, func(c *vk.Ctx, cs c11Stress) {
+		c.NonTrivial()
+		p := vfNewPair(uint64(cs.M))
+		defer p.close()
+		parties := int32(2 * cs.Senders)
+		var arrived int32
+		var abort uint32
+		wait := func(step int) {
+			target := int32(step+1) * parties
+			atomic.AddInt32(&arrived, 1)
+			for i := 1; atomic.LoadInt32(&arrived) < target && atomic.LoadUint32(&abort) == 0; i++ {
+				if i%2048 == 0 {
+					runtime.Gosched()
+				}
+			}
+		}
+		type sideRes struct {
+			mu   sync.Mutex
+			got  map[string]int
+			n    int
+			done chan struct{}
+		}
+		collect := func(ch chan bpv7.Bundle, want int) *sideRes {
+			r := &sideRes{got: map[string]int{}, done: make(chan struct{})}
+			go func() {
+				defer close(r.done)
+				deadline := time.After(60 * time.Second)
+				for r.n < want {
+					select {
+					case b := <-ch:
+						r.mu.Lock()
+						r.got[string(enc(&b))]++
+						r.n++
+						r.mu.Unlock()
+					case <-deadline:
+						return
+					case <-p.stop:
+						return
+					}
+				}
+			}()
+			return r
+		}
+		total := cs.Senders * cs.Rounds
+		resA := collect(p.gotA, total)
+		resB := collect(p.gotB, total)
+		want := map[string]map[string]int{"a": {}, "b": {}}
+		var wmu sync.Mutex
+		var firstErr atomic.Value
+		var wg sync.WaitGroup
+		for side := 0; side < 2; side++ {
+			for s := 0; s < cs.Senders; s++ {
+				wg.Add(1)
+				go func(side, s int) {
+					defer wg.Done()
+					tm, to := p.a, "b"
+					if side == 1 {
+						tm, to = p.b, "a"
+					}
+					for r := 0; r < cs.Rounds; r++ {
+						b, e, err := vfBundle(20+(r%40), uint64(side*1000000+s*100000+r), cs.M, false)
+						if err != nil {
+							firstErr.CompareAndSwap(nil, "harness: "+err.Error())
+							atomic.StoreUint32(&abort, 1)
+							return
+						}
+						wmu.Lock()
+						want[to][string(e)]++
+						wmu.Unlock()
+						wait(r)
+						if atomic.LoadUint32(&abort) != 0 {
+							return
+						}
+						if err := tm.Send(b); err != nil {
+							firstErr.CompareAndSwap(nil, fmt.Sprintf("Send (side %d, sender %d, round %d) fails: %v", side, s, r, err))
+							atomic.StoreUint32(&abort, 1)
+							return
+						}
+					}
+				}(side, s)
+			}
+		}
+		wg.Wait()
+		if e := firstErr.Load(); e != nil {
+			msg := e.(string)
+			if strings.HasPrefix(msg, "harness") {
+				c.Failf("c11.harness", "%s", msg)
+			}
+			c.Failf("c11.concurrent-send-fails", "%d senders per side, m=%d: %s although the peer acknowledges everything it receives", cs.Senders, cs.M, msg)
+		}
+		<-resA.done
+		<-resB.done
+		select {
+		case e := <-p.errs:
+			c.Failf("c11.concurrent-session-error", "a TransferManager reports an error on a fault-free connection: %v", e)
+		default:
+		}
+		for name, r := range map[string]*sideRes{"a": resA, "b": resB} {
+			r.mu.Lock()
+			if r.n != total {
+				c.Failf("c11.success-not-delivered", "side %s: %d Sends returned nil, %d bundles were handed up", name, total, r.n)
+			}
+			for k, n := range want[name] {
+				if r.got[k] != n {
+					c.Failf("c11.success-not-delivered", "side %s: a bundle sent %d time(s) was handed up %d time(s)", name, n, r.got[k])
+				}
+			}
+			r.mu.Unlock()
+		}
+	})
 }
